@@ -71,8 +71,10 @@ class CT:
     def pqv_getattr(self, name):
         if name == 'values':
             return CT('values', self)
+        if name in ('iloc', 'loc', 'T'):
+            return CT(name, self)
         if name in ('mean', 'sum', 'any', 'all', 'min', 'max', 'std', 'median', 'first', 'copy', 'round', 'tolist',
-                    'dropna', 'drop_duplicates', 'reset_index', 'sort_index', 'sort_values', 'astype', 'apply', 'iloc',
+                    'dropna', 'drop_duplicates', 'reset_index', 'sort_index', 'sort_values', 'astype', 'apply',
                     'isna', 'notna', 'abs'):
             return _M(self, name)
         return TOP
